@@ -406,6 +406,16 @@ class Lexer:
                 and self.peek() in NUMBER
             ):
                 number: NumberTuple = self.get_number()
+                if (
+                    # needs at least one digit
+                    not (number[1] or number[2])
+                    # an exponent needs at least one digit
+                    or self.text[self.pos - 1] in ("pP+-" if number[0] else "eE+-")
+                    # must not touch a letter, a digit or a dot
+                    or self.current_char in ALPHANUMERIC
+                    or self.current_char == "."
+                ):
+                    self.error("Malformed number", args["line"] - 1, args["column"] - 1)
                 return Token(TokenType.NUMBER, number, **args)
 
             if self.current_char in ["'", '"']:
